@@ -112,6 +112,31 @@ func hostileSpec(pos, n, n2 string) []byte {
 		op["security"] = []any{M{"S": []any{}}}
 	case "resp_header":
 		op["responses"].(M)["200"].(M)["headers"] = M{n: M{"schema": M{"type": "string"}}}
+		if n2 != "" {
+			op["responses"].(M)["200"].(M)["headers"].(M)[n2] = M{"schema": M{"type": "integer"}}
+		}
+	case "resp_header_body":
+		hs := M{n: M{"schema": M{"type": "string"}}}
+		if n2 != "" {
+			hs[n2] = M{"schema": M{"type": "integer"}}
+		}
+		op["responses"].(M)["200"] = M{"description": "ok", "headers": hs, "content": M{"application/json": M{"schema": M{"type": "string"}}}}
+		op["responses"].(M)["201"] = M{"description": "created", "headers": hs, "content": M{"application/json": M{"schema": obj()}}}
+	case "objparam_property":
+		props := M{n: M{"type": "string"}, "other": M{"type": "integer"}}
+		if n2 != "" {
+			props[n2] = M{"type": "boolean"}
+		}
+		op["parameters"] = []any{M{"name": "filter", "in": "query", "style": "deepObject", "explode": true, "schema": M{"type": "object", "properties": props}},
+			M{"name": "form", "in": "query", "style": "form", "explode": true, "schema": M{"type": "object", "required": []string{n}, "properties": props}}}
+	case "server_variable":
+		vars := M{n: M{"default": "d"}}
+		url := "https://{" + n + "}.example.com/{" + n + "}"
+		if n2 != "" {
+			vars[n2] = M{"default": "e"}
+			url += "/{" + n2 + "}"
+		}
+		d["servers"] = []any{M{"url": url, "x-ogen-server-name": "Main", "variables": vars}}
 	case "tag":
 		op["tags"] = []any{n}
 	case "pathstatic":
@@ -145,7 +170,7 @@ func hostileSpec(pos, n, n2 string) []byte {
 	return b
 }
 
-var positions = []string{"schema", "property", "query", "header", "cookie", "param-locations", "pathparam", "operationId", "enum", "security", "apikeyname", "resp_header", "tag", "pathstatic", "default", "discriminator", "servername", "description", "content-type", "x-ogen-name", "webhook"}
+var positions = []string{"schema", "property", "query", "header", "cookie", "param-locations", "pathparam", "operationId", "enum", "security", "apikeyname", "resp_header", "resp_header_body", "objparam_property", "server_variable", "tag", "pathstatic", "default", "discriminator", "servername", "description", "content-type", "x-ogen-name", "webhook"}
 
 func featureOpts(feats []string, convenient string) func() gen.Options {
 	return func() gen.Options {
@@ -172,8 +197,9 @@ func programs(r *vf.Run) []program {
 		}
 	}
 	// collision pairs: names that coincide after normalisation
-	coll := [][2]string{{"a_b", "aB"}, {"a-b", "a_b"}, {"a b", "a_b"}, {"A_B", "a_b"}, {"ab", "Ab"}, {"ab", "AB"}, {"a", "A"}, {"a1", "a_1"}, {"é", "e"}, {"a.b", "a/b"}, {"x", "x "}, {"Opt", "opt"}, {"1a", "_1a"}, {"type", "Type"}, {"a__b", "a_b"}}
-	for _, pos := range []string{"schema", "property", "query", "header", "cookie", "enum"} {
+	coll := [][2]string{{"a_b", "aB"}, {"a-b", "a_b"}, {"a b", "a_b"}, {"A_B", "a_b"}, {"ab", "Ab"}, {"ab", "AB"}, {"a", "A"}, {"a1", "a_1"}, {"é", "e"}, {"a.b", "a/b"}, {"x", "x "}, {"Opt", "opt"}, {"1a", "_1a"}, {"type", "Type"}, {"a__b", "a_b"},
+		{"foo", "get_foo"}, {"foo", "GetFoo"}, {"foo", "set_foo"}, {"X-Rate", "X_Rate"}, {"x", "X"}}
+	for _, pos := range []string{"schema", "property", "query", "header", "cookie", "enum", "resp_header", "resp_header_body", "objparam_property", "server_variable"} {
 		for i, c := range coll {
 			ps = append(ps, program{ID: fmt.Sprintf("hp_%s_%02d", pos, i), Group: "hostile", Spec: hostileSpec(pos, c[0], c[1]),
 				Opts: featureOpts(hostileFeatures, ""), Attrs: map[string]string{"position": pos + "-pair", "name_class": "collision", "name": c[0] + " | " + c[1]}, Desc: M{"position": pos, "names": c}})
@@ -268,13 +294,18 @@ func programs(r *vf.Run) []program {
 	}
 	// ----- (D) spec-shape fixtures (each found an uncompilable output once)
 	fixtures := map[string]string{
-		"shared_header_ref_two_names":      `{"openapi":"3.0.3","info":{"title":"t","version":"1"},"paths":{"/a":{"get":{"operationId":"a","responses":{"200":{"description":"ok","headers":{"X-A":{"$ref":"#/components/headers/H"},"X-B":{"$ref":"#/components/headers/H"}}}}}}},"components":{"headers":{"H":{"schema":{"type":"string"}}}}}`,
-		"pattern_responses_share_schema":   `{"openapi":"3.0.3","info":{"title":"t","version":"1"},"paths":{"/a":{"get":{"operationId":"a","responses":{"200":{"description":"ok"},"4XX":{"description":"c","content":{"application/json":{"schema":{"$ref":"#/components/schemas/E"}}}},"5XX":{"description":"s","content":{"application/json":{"schema":{"$ref":"#/components/schemas/E"}}}}}}}},"components":{"schemas":{"E":{"type":"object","properties":{"m":{"type":"string"}}}}}}`,
-		"pattern_and_default_share_schema": `{"openapi":"3.0.3","info":{"title":"t","version":"1"},"paths":{"/a":{"get":{"operationId":"a","responses":{"200":{"description":"ok"},"4XX":{"description":"c","content":{"application/json":{"schema":{"$ref":"#/components/schemas/E"}}}},"default":{"description":"s","content":{"application/json":{"schema":{"$ref":"#/components/schemas/E"}}}}}}}},"components":{"schemas":{"E":{"type":"object","properties":{"m":{"type":"string"}}}}}}`,
-		"global_security_with_webhooks":    `{"openapi":"3.1.0","info":{"title":"t","version":"1"},"security":[{"K":[]}],"paths":{"/a":{"get":{"operationId":"a","responses":{"200":{"description":"ok"}}}}},"webhooks":{"evt":{"post":{"operationId":"hook","requestBody":{"content":{"application/json":{"schema":{"type":"object"}}}},"responses":{"200":{"description":"ok"}}}}},"components":{"securitySchemes":{"K":{"type":"apiKey","in":"header","name":"X-K"}}}}`,
+		"shared_header_ref_two_names":             `{"openapi":"3.0.3","info":{"title":"t","version":"1"},"paths":{"/a":{"get":{"operationId":"a","responses":{"200":{"description":"ok","headers":{"X-A":{"$ref":"#/components/headers/H"},"X-B":{"$ref":"#/components/headers/H"}}}}}}},"components":{"headers":{"H":{"schema":{"type":"string"}}}}}`,
+		"pattern_responses_share_schema":          `{"openapi":"3.0.3","info":{"title":"t","version":"1"},"paths":{"/a":{"get":{"operationId":"a","responses":{"200":{"description":"ok"},"4XX":{"description":"c","content":{"application/json":{"schema":{"$ref":"#/components/schemas/E"}}}},"5XX":{"description":"s","content":{"application/json":{"schema":{"$ref":"#/components/schemas/E"}}}}}}}},"components":{"schemas":{"E":{"type":"object","properties":{"m":{"type":"string"}}}}}}`,
+		"pattern_and_default_share_schema":        `{"openapi":"3.0.3","info":{"title":"t","version":"1"},"paths":{"/a":{"get":{"operationId":"a","responses":{"200":{"description":"ok"},"4XX":{"description":"c","content":{"application/json":{"schema":{"$ref":"#/components/schemas/E"}}}},"default":{"description":"s","content":{"application/json":{"schema":{"$ref":"#/components/schemas/E"}}}}}}}},"components":{"schemas":{"E":{"type":"object","properties":{"m":{"type":"string"}}}}}}`,
+		"global_security_with_webhooks":           `{"openapi":"3.1.0","info":{"title":"t","version":"1"},"security":[{"K":[]}],"paths":{"/a":{"get":{"operationId":"a","responses":{"200":{"description":"ok"}}}}},"webhooks":{"evt":{"post":{"operationId":"hook","requestBody":{"content":{"application/json":{"schema":{"type":"object"}}}},"responses":{"200":{"description":"ok"}}}}},"components":{"securitySchemes":{"K":{"type":"apiKey","in":"header","name":"X-K"}}}}`,
 		"response_component_for_code_and_default": `{"openapi":"3.0.3","info":{"title":"t","version":"1"},"paths":{"/a":{"get":{"operationId":"a","responses":{"200":{"$ref":"#/components/responses/R"},"default":{"$ref":"#/components/responses/R"}}}}},"components":{"responses":{"R":{"description":"r","headers":{"X-H":{"schema":{"type":"string"}}},"content":{"application/json":{"schema":{"$ref":"#/components/schemas/S"}}}}},"schemas":{"S":{"type":"object","properties":{"m":{"type":"string"}}}}}}`,
 		"same_schema_two_header_sets":             `{"openapi":"3.0.3","info":{"title":"t","version":"1"},"paths":{"/a":{"get":{"operationId":"a","responses":{"200":{"description":"x","headers":{"X-1":{"schema":{"type":"string"}}},"content":{"application/json":{"schema":{"$ref":"#/components/schemas/S"}}}}}}},"/b":{"get":{"operationId":"b","responses":{"200":{"description":"y","headers":{"X-2":{"schema":{"type":"string"}}},"content":{"application/json":{"schema":{"$ref":"#/components/schemas/S"}}}}}}}},"components":{"schemas":{"S":{"type":"object","properties":{"m":{"type":"string"}}}}}}`,
-		"codes_share_schema":               `{"openapi":"3.0.3","info":{"title":"t","version":"1"},"paths":{"/a":{"get":{"operationId":"a","responses":{"400":{"description":"c","content":{"application/json":{"schema":{"$ref":"#/components/schemas/E"}}}},"404":{"description":"s","content":{"application/json":{"schema":{"$ref":"#/components/schemas/E"}}}}}}}},"components":{"schemas":{"E":{"type":"object","properties":{"m":{"type":"string"}}}}}}`,
+		"enum_constant_equals_schema_name":        `{"openapi":"3.0.3","info":{"title":"t","version":"1"},"paths":{"/a":{"post":{"operationId":"a","requestBody":{"content":{"application/json":{"schema":{"$ref":"#/components/schemas/Color"}}}},"responses":{"200":{"description":"ok","content":{"application/json":{"schema":{"$ref":"#/components/schemas/ColorRed"}}}}}}}},"components":{"schemas":{"Color":{"type":"string","enum":["red","green"]},"ColorRed":{"type":"object","properties":{"m":{"type":"string"}}}}}}`,
+		"default_out_of_range_for_the_format":     `{"openapi":"3.0.3","info":{"title":"t","version":"1"},"paths":{"/a":{"get":{"operationId":"a","parameters":[{"name":"q","in":"query","schema":{"type":"integer","format":"int8","default":1000}},{"name":"u","in":"query","schema":{"type":"integer","format":"uint8","default":-1}},{"name":"i","in":"query","schema":{"type":"integer","format":"int32","default":4294967296}}],"responses":{"200":{"description":"ok"}}}}}}`,
+		"nested_sum_sharing_a_json_type":          `{"openapi":"3.0.3","info":{"title":"t","version":"1"},"paths":{"/a":{"post":{"operationId":"a","requestBody":{"content":{"application/json":{"schema":{"oneOf":[{"type":"string"},{"$ref":"#/components/schemas/Inner"}]}}}},"responses":{"200":{"description":"ok"}}}}},"components":{"schemas":{"Inner":{"oneOf":[{"type":"string"},{"type":"integer"}]}}}}`,
+		"operation_security_on_a_webhook":         `{"openapi":"3.1.0","info":{"title":"t","version":"1"},"paths":{"/a":{"get":{"operationId":"a","responses":{"200":{"description":"ok"}}}}},"webhooks":{"evt":{"post":{"operationId":"hook","security":[{"K":[]}],"requestBody":{"content":{"application/json":{"schema":{"type":"object"}}}},"responses":{"200":{"description":"ok"}}}}},"components":{"securitySchemes":{"K":{"type":"apiKey","in":"header","name":"X-K"}}}}`,
+		"recursive_member_nullable_and_optional":  `{"openapi":"3.0.3","info":{"title":"t","version":"1"},"paths":{"/a":{"post":{"operationId":"a","requestBody":{"required":true,"content":{"application/json":{"schema":{"$ref":"#/components/schemas/RNode"}}}},"responses":{"200":{"description":"ok"}}}}},"components":{"schemas":{"RNode":{"type":"object","required":["id"],"properties":{"id":{"type":"integer"},"next":{"nullable":true,"allOf":[{"$ref":"#/components/schemas/RNode"}]}}}}}}`,
+		"codes_share_schema":                      `{"openapi":"3.0.3","info":{"title":"t","version":"1"},"paths":{"/a":{"get":{"operationId":"a","responses":{"400":{"description":"c","content":{"application/json":{"schema":{"$ref":"#/components/schemas/E"}}}},"404":{"description":"s","content":{"application/json":{"schema":{"$ref":"#/components/schemas/E"}}}}}}}},"components":{"schemas":{"E":{"type":"object","properties":{"m":{"type":"string"}}}}}}`,
 	}
 	var fnames []string
 	for n := range fixtures {
